@@ -730,6 +730,12 @@ impl<'a> Message<'a> {
                 "An error response message was attempted to be created from a non-request message"
             );
         }
+        Message::error_builder_for(orig)
+    }
+
+    // An error message builder mirroring the method and transaction id of `orig`, whatever its
+    // class.  Used when policing attributes of messages that are not necessarily requests.
+    fn error_builder_for<'b>(orig: &Message) -> MessageBuilder<'b> {
         Message::builder(
             MessageType::from_class_method(MessageClass::Error, orig.method()),
             orig.transaction_id(),
@@ -1274,7 +1280,7 @@ impl<'a> Message<'a> {
         src: &Message,
         attributes: &[AttributeType],
     ) -> MessageBuilder<'b> {
-        let mut out = Message::builder_error(src);
+        let mut out = Message::error_builder_for(src);
         let software = Software::new("stun-types").unwrap();
         out.add_attribute(&software).unwrap();
         let error = ErrorCode::new(420, "Unknown Attributes").unwrap();
@@ -1303,7 +1309,7 @@ impl<'a> Message<'a> {
     /// assert_eq!(error_code.code(), 400);
     /// ```
     pub fn bad_request<'b>(src: &'a Message) -> MessageBuilder<'b> {
-        let mut out = Message::builder_error(src);
+        let mut out = Message::error_builder_for(src);
         let software = Software::new("stun-types").unwrap();
         out.add_attribute(&software).unwrap();
         let error = ErrorCode::new(400, "Bad Request").unwrap();
